@@ -337,11 +337,25 @@ func c28RelText(d, h, m int, colon, pad bool) string {
 	return "-" + strings.Join(parts, sep)
 }
 
+// c28RelNows: (process zone, virtual now as offset from 2000-01-01T00:00:00Z). The last four lie a day
+// or two after an offset change of the process zone, so that "-Xd" reaches back across it: a day of a
+// relative time is 86400 seconds, not a calendar day.
+var c28RelNows = []struct {
+	zone  int
+	sleep time.Duration
+}{
+	{0, 0}, {1, 999 * time.Millisecond}, {2, 86399*time.Second + 500*time.Millisecond}, {3, 20*365*24*time.Hour + 1250*time.Millisecond},
+	{1, (87*24 + 12) * time.Hour},  // 2000-03-28T12:00Z, Europe/Zurich: summer time since 03-26
+	{2, (94*24 + 12) * time.Hour},  // 2000-04-04T12:00Z, America/Los_Angeles: since 04-02
+	{1, (303*24 + 12) * time.Hour}, // 2000-10-30T12:00Z, Europe/Zurich: winter time since 10-29
+	{3, (81*24 + 12) * time.Hour},  // 2000-03-22T12:00Z, Asia/Tehran: since 03-20/21
+}
+
 func c28RelRun(x *explore.Ctx) {
 	colon := x.Case&1 == 1
 	pad := x.Case&2 == 2
-	ni := (x.Case >> 2) & 3
-	defer c28SetLocal(c28Zones[ni])()
+	rn := c28RelNows[(x.Case>>2)%len(c28RelNows)]
+	defer c28SetLocal(c28Zones[rn.zone])()
 	alpha := c28RelQ
 	if x.Thorough() {
 		alpha = c28RelT
@@ -363,7 +377,7 @@ func c28RelRun(x *explore.Ctx) {
 	var got int64
 	var err error
 	x.Transition()
-	now, pv, stack := c28InBubble(c28Sleep[ni], func() { got, err = query.ParseTimeArgument(text) })
+	now, pv, stack := c28InBubble(rn.sleep, func() { got, err = query.ParseTimeArgument(text) })
 	if pv != nil {
 		x.Fail("rel-panic", "ParseTimeArgument(%q) panicked: %v\n%s", text, pv, stack)
 		return
@@ -515,8 +529,8 @@ func init() {
 		"parts appear in the order d, h, m as in the documented forms; at least one part"}
 	register("C28.rel", &explore.Scenario{
 		ID: "C28", Name: "relative times against a virtual now", Level: "exploration",
-		Rule:  "cases = {-XdYhZm, -Xd:Yh:Zm} x {plain, zero-padded to 2 digits} x now {2000-01-01T00:00:00Z, +0.999s, +86399.5s, +20y+1.25s} (process zone varies with now); X,Y,Z each from {absent,0,1,9,10,59,400} (thorough {absent,0,1,2,9,10,23,24,59,60,99,100,400,1000,100000}), all combinations with at least one part; result must equal floor(now) - (86400X+3600Y+60Z); non-trivial = distinct accepted texts per case",
-		Cases: func(string) int { return 16 },
+		Rule:  "cases = {-XdYhZm, -Xd:Yh:Zm} x {plain, zero-padded to 2 digits} x (process zone, now) {UTC 2000-01-01T00:00:00Z, Zurich +0.999s, Los Angeles +86399.5s, Tehran +20y+1.25s, and one or two days after an offset change of the zone: Zurich 2000-03-28 and 2000-10-30, Los Angeles 2000-04-04, Tehran 2000-03-22}; X,Y,Z each from {absent,0,1,9,10,59,400} (thorough {absent,0,1,2,9,10,23,24,59,60,99,100,400,1000,100000}), all combinations with at least one part; result must equal floor(now) - (86400X+3600Y+60Z); non-trivial = distinct accepted texts per case",
+		Cases: func(string) int { return 4 * len(c28RelNows) },
 		Bound: func(string) int { return 0 },
 		Run:   c28RelRun, Setup: c28Setup, PanicSig: "panic", Assumptions: rel,
 	})
